@@ -9,12 +9,14 @@ from .c11 import canon, outcome
 # a 3-rule base; every rule body refers to the others so that late binding is observable
 BASE_RULES = {
     'start': 'W+',
-    'W': 'L | D',
+    'W': 'L | D | P(L)',
+    'P(x)': '"(" >> x << ")"',
     'L': '/[ab]/',
     'D': '/[01]/',
 }
 ALT = {     # alternative definitions used by derived grammars
-    'W': ['"<" >> L << ">"', 'D | L', '[L, D]', '("!" >> super.W) | D'],
+    'W': ['"<" >> L << ">"', 'D | L', '[L, D]', '("!" >> super.W) | D', 'P(D) | L', 'P(x=L) | P(D)'],
+    'P(x)': ['"[" >> x << "]"', '"(" >> (x // ",") << ")"'],
     'L': ['/[xy]/', '"l"', '("~" >> super.L) | "z"'],
     'D': ['/[78]/', '"d" >> L'],
     'start': ['W', '[W, W]', '(W // ",")'],
@@ -30,14 +32,15 @@ def texts():
         out = ['']
         for n in range(1, 4):
             out += [''.join(p) for p in itertools.product('a0x7!<', repeat=n)]
-        out += ['<a>', '<x>', '!a', '!!a', '~a', 'a,0', 'a 0', ' a', 'l', 'z', 'da', '~~a', '!<a>', 'a0a0', '<a><x>', 'a,x,7', ' a b', 'a b ', 'a  0']
+        out += ['<a>', '<x>', '!a', '!!a', '~a', 'a,0', 'a 0', ' a', 'l', 'z', 'da', '~~a', '!<a>', 'a0a0', '<a><x>', 'a,x,7', ' a b', 'a b ', 'a  0',
+                '(a)', '(x)', '(0)', '(7)', '[a]', '[x]', '[0]', '(l)', '(z)', '(a,a)', '(x,x)', '(a)(x)', '( a )', '(a', 'a,(a)', '(a),0']
         TEXTS = out
     return TEXTS
 
 
 class Level:
-    def __init__(self, name, rules, ignore=None, parent=None):
-        self.name, self.rules, self.ignore, self.parent = name, rules, ignore, parent
+    def __init__(self, name, rules, ignore=None, parent=None, ignore_first=False):
+        self.name, self.rules, self.ignore, self.parent, self.ignore_first = name, rules, ignore, parent, ignore_first
 
     def describe(self, uid):
         head = f'grammar c13_{uid}_{self.name}' + (f' extends c13_{uid}_{self.parent.name}' if self.parent else '') + '\n'
@@ -50,7 +53,10 @@ class Level:
         for n, body in self.rules.items():
             lines.append(('override ' if n in inherited else '') + f'{n} = {body}')
         if self.ignore:
-            lines.append(self.ignore)
+            if self.ignore_first:
+                lines.insert(0, self.ignore)
+            else:
+                lines.append(self.ignore)
         return head + '\n'.join(lines) + '\n'
 
     def chain(self):
@@ -94,7 +100,8 @@ def flatten(level):
 
 def gen_levels(rnd, depth, with_ignore):
     base_ign = rnd.choice([None, 'ignore " "', 'ignore Sp = " "']) if with_ignore else None
-    lv = Level('a', dict(BASE_RULES), base_ign)
+    first = rnd.random() < 0.5
+    lv = Level('a', dict(BASE_RULES), base_ign, ignore_first=first)
     levels = [lv]
     for d in range(1, depth):
         rules = {}
@@ -108,7 +115,7 @@ def gen_levels(rnd, depth, with_ignore):
         ign = None
         if with_ignore and base_ign and rnd.random() < 0.4:
             ign = rnd.choice(['ignore ","', 'ignore Cm = ","'])
-        lv = Level('abc'[d], rules, ign, lv)
+        lv = Level('abc'[d], rules, ign, lv, ignore_first=first)
         levels.append(lv)
     return levels
 
